@@ -23,6 +23,7 @@ import (
 
 	"gxverif/hx"
 	gi "gxverif/ipam"
+	netsh "gxverif/nets"
 )
 
 const prop = "C09"
@@ -386,8 +387,53 @@ func (rn *runner) largeCase() {
 }
 
 // replay: a history file, optionally ending in a schedule line.
+// reloadRetry: the plugin-level reload path (FloatingIPPlugin.ensureIPAMConf around ConfigurePool): a reload whose
+// store list fails must change nothing and must be tried again at the next poll of the same ConfigMap text -
+// otherwise addresses removed from the configuration stay served for good ("drops exactly the others").
+const reloadRetryOp = "reload-retry-after-store-failure"
+
+func (rn *runner) reloadRetry(a, b string, k int) {
+	src := []string{fmt.Sprintf("%s %x %x %d", reloadRetryOp, a, b, k)}
+	vs := netsh.RetryAfterStoreFailure(a, b, k)
+	rn.R.Hit("reload-retry-scenario")
+	rn.R.Case(src[0], true)
+	for _, v := range vs {
+		rn.Violation(v.Sig, v.What, src)
+	}
+}
+
+func (rn *runner) reloadRetries(n int) {
+	netsh.QuietLogs()
+	for i := 0; i < n; i++ {
+		var a, b string
+		for try := 0; try < 20; try++ {
+			pa, pb := netsh.GenConf(rn.E.Rng), netsh.GenConf(rn.E.Rng)
+			a, b = netsh.ConfDoc(pa).Text(), netsh.ConfDoc(pb).Text()
+			da, oa := netsh.DecodeConf(a)
+			db, ob := netsh.DecodeConf(b)
+			if oa == "ok" && ob == "ok" && a != b && netsh.ExpectedAddresses(da) != nil && netsh.ExpectedAddresses(db) != nil {
+				break
+			}
+			a, b = "", ""
+		}
+		if a == "" {
+			continue
+		}
+		rn.reloadRetry(a, b, 1+i%3)
+	}
+}
+
 func (rn *runner) replay(path string) {
 	lines, err := hx.ReadOps(path)
+	if err == nil && len(lines) > 0 && strings.HasPrefix(lines[0], reloadRetryOp+" ") {
+		var a, b []byte
+		var k int
+		if n, _ := fmt.Sscanf(lines[0], reloadRetryOp+" %x %x %d", &a, &b, &k); n == 3 {
+			netsh.QuietLogs()
+			rn.reloadRetry(string(a), string(b), k)
+		}
+		return
+	}
 	if err != nil || len(lines) == 0 || !strings.HasPrefix(lines[len(lines)-1], `{"schedule"`) {
 		rn.ReplayFile(path, rn.monitor)
 		return
@@ -422,6 +468,7 @@ func run(e *hx.Env) *hx.Report {
 		rn.history(length)
 	}
 	rn.largeCase()
+	rn.reloadRetries(e.N(40, 400))
 	if e.Thorough() {
 		for i := 0; i < 150; i++ {
 			rn.schedule([]string{"allocate", "release"}[i%2])
